@@ -1,5 +1,16 @@
 from run import Job
 
+MANIFEST = dict(
+    category="other",
+    text="Per-operation contracts (representation invariant + whole-view postcondition + frame/ownership) on the real container "
+         "functions, enforced by CBMC/DFCC. dvector/uivector/ivector operations are proved for every size <= 2^20 with loop "
+         "contracts (no unwinding); RemoveAt and the matrix/tensor/list/strvector operations (nested pointers) are bounded stand-ins over "
+         "enumerated shapes with symbolic contents. Any operation history is covered by induction over these contracts, which is why the "
+         "level is 'other' rather than 'proof': part of the obligations are bounded.",
+    note="CBMC models of malloc/realloc/free; allocation failure aborts; own memmove model (CBMC's is wrong for overlapping symbolic "
+         "lengths); stdio stubbed; qsort by assumed contract; ghost-index generalisation; bounded jobs list their shape bound in evidence.",
+    technique="CBMC function contracts (DFCC) + loop contracts on the real C sources; bounded unwinding stand-ins for nested-pointer containers")
+
 META = dict(
     decided="representation invariant (well-formedness) preserved and whole-view postconditions (size bookkeeping, old cells preserved, "
             "new cells zero/appended, deep copies, frames, clean abort / no-op on out-of-range accessors) for container operations",
